@@ -10,7 +10,10 @@
      SelectiveAuthProvider, specs/openapi/checks.py remove_auth, and the in-place
      sanitization reached through Case.__hash__ (unique_inputs).
    Part B: CachingAuthProvider.get / KeyedCachingAuthProvider (auths.py) as a labelled
-     transition system over n callers with a monotone clock. *)
+     transition system over n callers with a monotone clock.
+   Part C: EngineContext.session (engine/context.py), the lazily created requests.Session shared
+     by all workers, with functools.cached_property, as a labelled transition system over n
+     readers; the sentinel order (publish first, configure in place) as a regression model. *)
 From Coq Require Import List NArith Bool Arith.
 From Verif Require Import Common.Str Common.Json.
 Import ListNotations.
@@ -458,4 +461,199 @@ Fixpoint trace (recheck : bool) (iv : N) (sched : list label) (s : st) :=
   match sched with
   | [] => []
   | l :: r => let s' := step recheck iv s l in observe s' :: trace recheck iv r s'
+  end.
+
+(* ====================================================================================== *)
+(* Part C: EngineContext.session (engine/context.py:77-94): lazy initialisation of the     *)
+(* requests.Session that all workers share, as an LTS over any number of readers           *)
+(* ====================================================================================== *)
+
+(* config.network, values opaque (tls_verify / cert travel as tagged text, auth as the
+   Authorization value requests derives from the tuple) *)
+Record ncfg := { n_verify : str; n_auth : option str; n_headers : dict; n_cert : option str; n_proxy : option str }.
+(* the attributes of a requests.Session the code assigns *)
+Record sess := { s_verify : str; s_auth : option str; s_headers : dict; s_cert : option str; s_proxies : dict }.
+
+Definition V_TRUE : str := [1;116;114;117;101].        (* tagged text of True *)
+Definition K_ALL : str := [97;108;108].
+(* requests.Session(): library defaults *)
+Definition bare (dflt : dict) : sess :=
+  {| s_verify := V_TRUE; s_auth := None; s_headers := ci_of_items dflt; s_cert := None; s_proxies := [] |}.
+
+Inductive fld := FVerify | FAuth | FHeaders | FCert | FProxies.
+(* one assignment of context.py:85-94 *)
+Definition set_field (c : ncfg) (f : fld) (x : sess) : sess :=
+  match f with
+  | FVerify => {| s_verify := n_verify c; s_auth := s_auth x; s_headers := s_headers x; s_cert := s_cert x; s_proxies := s_proxies x |}
+  | FAuth => {| s_verify := s_verify x; s_auth := n_auth c; s_headers := s_headers x; s_cert := s_cert x; s_proxies := s_proxies x |}
+  | FHeaders => {| s_verify := s_verify x; s_auth := s_auth x; s_headers := ci_update (s_headers x) (n_headers c);
+                   s_cert := s_cert x; s_proxies := s_proxies x |}
+  | FCert => {| s_verify := s_verify x; s_auth := s_auth x; s_headers := s_headers x; s_cert := n_cert c; s_proxies := s_proxies x |}
+  | FProxies => {| s_verify := s_verify x; s_auth := s_auth x; s_headers := s_headers x; s_cert := s_cert x;
+                   s_proxies := match n_proxy c with Some p => assoc_set K_ALL p (s_proxies x) | None => s_proxies x end |}
+  end.
+(* the assignments the code performs, in its order: verify always, the others under their `if` *)
+Definition todo (c : ncfg) : list fld :=
+  FVerify :: (match n_auth c with Some _ => [FAuth] | None => [] end)
+          ++ (if is_empty (n_headers c) then [] else [FHeaders])
+          ++ (match n_cert c with Some _ => [FCert] | None => [] end)
+          ++ (match n_proxy c with Some _ => [FProxies] | None => [] end).
+Definition apply_fields (c : ncfg) (r : list fld) (x : sess) : sess := fold_left (fun acc f => set_field c f acc) r x.
+Definition configured (c : ncfg) (dflt : dict) : sess := apply_fields c (todo c) (bare dflt).
+(* what a request prepared through session x carries (Session.prepare_request: merge, then auth) *)
+Definition request_headers (x : sess) (final : hdrs) : dict := apply_auth (s_auth x) (ci_update (s_headers x) (h_items final)).
+
+(* program counter of one reader of ctx.session *)
+Inductive spc :=
+| SIdle
+| SLook                            (* about to evaluate ctx.session: is the value in the instance dict *)
+| SGet                             (* cached_property.__get__: cache.get(attrname) *)
+| SExpl                            (* 79: if self._session is not None *)
+| SRetE                            (* 80: return self._session *)
+| SNew                             (* 83: requests.Session() *)
+| SConf (o : nat) (r : list fld)   (* 85-94: about to perform the first assignment of r on the LOCAL object o *)
+| SPub (o : nat)                   (* cached_property.__get__: cache[attrname] = val; return val *)
+(* reached in the sentinel order only (regression model) *)
+| SPubA (o : nat)                  (* self._session = <the new object> *)
+| SConfA (r : list fld)            (* self._session.<field> = ... on whatever the attribute holds *)
+| SRetA.                           (* return self._session *)
+
+Record sst := {
+  heap : list sess;                  (* every Session constructed, by identity (index) *)
+  cached : option nat;               (* ctx.__dict__[session], the cached_property slot *)
+  sattr : option nat;                (* ctx._session *)
+  spcs : list spc;
+  gots : list (nat * nat * sess);    (* newest first: reader, object, its attributes at the moment it was handed out *)
+  sends : list (nat * nat * sess)    (* newest first: reader, object, its attributes when a request went through it *)
+}.
+
+Inductive slabel := SCall (t : nat) | STh (t : nat) | SUse (t : nat).
+
+Definition set_spc (s : sst) (t : nat) (p : spc) : sst :=
+  {| heap := heap s; cached := cached s; sattr := sattr s; spcs := upd t p (spcs s); gots := gots s; sends := sends s |}.
+Definition with_heap (s : sst) (h : list sess) : sst :=
+  {| heap := h; cached := cached s; sattr := sattr s; spcs := spcs s; gots := gots s; sends := sends s |}.
+Definition with_cached (s : sst) (o : option nat) : sst :=
+  {| heap := heap s; cached := o; sattr := sattr s; spcs := spcs s; gots := gots s; sends := sends s |}.
+Definition with_sattr (s : sst) (o : option nat) : sst :=
+  {| heap := heap s; cached := cached s; sattr := o; spcs := spcs s; gots := gots s; sends := sends s |}.
+Definition hmod (o : nat) (g : sess -> sess) (h : list sess) : list sess :=
+  match nth_error h o with Some x => upd o (g x) h | None => h end.
+(* the reader receives object o *)
+Definition give (s : sst) (t o : nat) : sst :=
+  match nth_error (heap s) o with
+  | Some x => set_spc {| heap := heap s; cached := cached s; sattr := sattr s; spcs := spcs s;
+                         gots := (t, o, x) :: gots s; sends := sends s |} t SIdle
+  | None => set_spc s t SIdle
+  end.
+Definition after_conf (o : nat) (r : list fld) : spc := match r with [] => SPub o | _ => SConf o r end.
+Definition after_confA (r : list fld) : spc := match r with [] => SRetA | _ => SConfA r end.
+
+(* local_first = true is the code as it is: a cached_property that configures a local object
+   and lets functools publish the finished value; local_first = false is the sentinel order
+   (regression model): a plain property that tests ctx._session, assigns the new object to it
+   and configures it in place *)
+Definition s_thread_step (local_first : bool) (c : ncfg) (dflt : dict) (s : sst) (t : nat) (p : spc) : sst :=
+  match p with
+  | SIdle => s
+  | SLook =>
+      if local_first then match cached s with Some o => give s t o | None => set_spc s t SGet end
+      else match sattr s with Some _ => set_spc s t SRetA | None => set_spc s t SNew end
+  | SGet => match cached s with Some o => give s t o | None => set_spc s t SExpl end
+  | SExpl => match sattr s with Some _ => set_spc s t SRetE | None => set_spc s t SNew end
+  | SRetE => match sattr s with Some o => set_spc s t (SPub o) | None => set_spc s t SIdle end
+  | SNew =>
+      let o := length (heap s) in
+      set_spc (with_heap s (heap s ++ [bare dflt])) t (if local_first then after_conf o (todo c) else SPubA o)
+  | SConf o r =>
+      match r with
+      | [] => set_spc s t (SPub o)
+      | f :: r' => set_spc (with_heap s (hmod o (set_field c f) (heap s))) t (after_conf o r')
+      end
+  | SPub o => give (with_cached s (Some o)) t o
+  | SPubA o => set_spc (with_sattr s (Some o)) t (after_confA (todo c))
+  | SConfA r =>
+      match r with
+      | [] => set_spc s t SRetA
+      | f :: r' =>
+          set_spc (match sattr s with Some o => with_heap s (hmod o (set_field c f) (heap s)) | None => s end) t (after_confA r')
+      end
+  | SRetA => match sattr s with Some o => give s t o | None => set_spc s t SIdle end
+  end.
+
+Definition last_got (t : nat) (g : list (nat * nat * sess)) : option nat :=
+  match find (fun e => Nat.eqb (fst (fst e)) t) g with Some e => Some (snd (fst e)) | None => None end.
+
+Definition s_step (local_first : bool) (c : ncfg) (dflt : dict) (s : sst) (l : slabel) : sst :=
+  match l with
+  | SCall t => match nth_error (spcs s) t with Some SIdle => set_spc s t SLook | _ => s end
+  | STh t => match nth_error (spcs s) t with Some p => s_thread_step local_first c dflt s t p | None => s end
+  | SUse t =>   (* reader t sends a request through the session it obtained last *)
+      match last_got t (gots s) with
+      | Some o => match nth_error (heap s) o with
+                  | Some x => {| heap := heap s; cached := cached s; sattr := sattr s; spcs := spcs s; gots := gots s;
+                                 sends := (t, o, x) :: sends s |}
+                  | None => s
+                  end
+      | None => s
+      end
+  end.
+
+(* n readers; ex = the session passed to EngineContext(session=...) if any *)
+Definition s_init (n : nat) (ex : option sess) : sst :=
+  {| heap := match ex with Some x => [x] | None => [] end;
+     cached := None; sattr := match ex with Some _ => Some 0%nat | None => None end;
+     spcs := repeat SIdle n; gots := []; sends := [] |}.
+
+Definition s_run (local_first : bool) (c : ncfg) (dflt : dict) (sched : list slabel) (s : sst) : sst :=
+  fold_left (s_step local_first c dflt) sched s.
+
+(* executable form of the property on one log entry: the session carries the configured values *)
+Definition opt_str_eqb (a b : option str) : bool :=
+  match a, b with Some x, Some y => str_eqb x y | None, None => true | _, _ => false end.
+Definition auth_ok (c : ncfg) (e : nat * nat * sess) : bool := opt_str_eqb (s_auth (snd e)) (n_auth c).
+
+(* what the harness compares after every label *)
+Definition spc_tag (p : spc) : N :=
+  match p with
+  | SIdle => 0 | SLook => 1 | SGet => 2 | SExpl => 3 | SRetE => 4 | SNew => 5
+  | SConf _ (FVerify :: _) => 6 | SConf _ (FAuth :: _) => 7 | SConf _ (FHeaders :: _) => 8
+  | SConf _ (FCert :: _) => 9 | SConf _ (FProxies :: _) => 10 | SConf _ [] => 11
+  | SPub _ => 12 | SPubA _ => 13 | SConfA _ => 14 | SRetA => 15
+  end.
+Definition sess_obs (x : sess) := (s_verify x, s_auth x, s_headers x, s_cert x, s_proxies x).
+Definition log_obs (e : nat * nat * sess) := (fst (fst e), snd (fst e), sess_obs (snd e)).
+Definition s_observe (s : sst) :=
+  (map sess_obs (heap s), cached s, sattr s, map spc_tag (spcs s), map log_obs (rev (gots s)), map log_obs (rev (sends s))).
+Fixpoint s_trace (local_first : bool) (c : ncfg) (dflt : dict) (sched : list slabel) (s : sst) :=
+  match sched with
+  | [] => []
+  | l :: r => let s' := s_step local_first c dflt s l in s_observe s' :: s_trace local_first c dflt r s'
+  end.
+
+(* the same comparison, as the CHANGE made by each label (keeps the printed trace small): heap entries
+   that are new or differ from the state before, the slots, the pcs, and the log entries added *)
+Fixpoint dict_eqb (a b : dict) : bool :=
+  match a, b with
+  | [], [] => true
+  | (k, v) :: r, (k', v') :: r' => str_eqb k k' && str_eqb v v' && dict_eqb r r'
+  | _, _ => false
+  end.
+Definition sess_eqb (x y : sess) : bool :=
+  str_eqb (s_verify x) (s_verify y) && opt_str_eqb (s_auth x) (s_auth y) && dict_eqb (s_headers x) (s_headers y)
+  && opt_str_eqb (s_cert x) (s_cert y) && dict_eqb (s_proxies x) (s_proxies y).
+Fixpoint heap_delta (i : nat) (h h' : list sess) :=
+  match h, h' with
+  | x :: r, x' :: r' => (if sess_eqb x x' then [] else [(i, sess_obs x')]) ++ heap_delta (S i) r r'
+  | [], x' :: r' => (i, sess_obs x') :: heap_delta (S i) [] r'
+  | _, [] => []
+  end.
+Definition added {A} (old new : list A) : list A := rev (firstn (length new - length old) new).
+Definition s_delta (s s' : sst) :=
+  (heap_delta 0 (heap s) (heap s'), cached s', sattr s', map spc_tag (spcs s'),
+   map log_obs (added (gots s) (gots s')), map log_obs (added (sends s) (sends s'))).
+Fixpoint s_trace_delta (local_first : bool) (c : ncfg) (dflt : dict) (sched : list slabel) (s : sst) :=
+  match sched with
+  | [] => []
+  | l :: r => let s' := s_step local_first c dflt s l in s_delta s s' :: s_trace_delta local_first c dflt r s'
   end.
